@@ -361,6 +361,7 @@ class Interp:
         # taken to be False -- two different polynomials differ for some sizes -- and recorded
         self.strict = False
         self.strict_failures: list[str] = []
+        self.strict_raises: list[str] = []  # raise statements reached inside callees in strict mode
         from . import tensor_ops
 
         self.ops = tensor_ops
@@ -596,6 +597,8 @@ class Interp:
                         continue
                 yield "fall", NONE, s2
         elif isinstance(s, ast.Raise):
+            if self.strict and fr.depth >= 1 and len(self.strict_raises) < 20:
+                self.strict_raises.append(f"{fr.fi.module.relpath}:{s.lineno} {fr.fi.qualname}" + (f" under {st.assumed[-1]}" if st.assumed else ""))
             yield "raise", NONE, st
         elif isinstance(s, ast.Pass):
             yield "fall", NONE, st
